@@ -4,8 +4,16 @@
   The machine is `Cosi.rstepCore` (Cosi.Model.RWatch): the client's `recvMessage` loop with its
   retry loop over a server whose inner watch is the watcher machine of Cosi.Model.Watch.
   A schedule is any `List RStep`: writes, server goroutine steps, receives, transport
-  failures (with or without a replaced server process), retry-loop iterations that fail
-  to dial, fail on the first message, or reach the server — in any order and number.
+  failures (with or without a replaced server process) AND clean ends of stream (io.EOF: the
+  server side finished the stream with status OK), retry-loop iterations that fail
+  to dial, fail on the first message (either way), or reach the server — in any order and number.
+
+  The event loop's error branch — is the error that ends the watch handed to `sendError`? — is
+  the rule parameter `Rules.reports` of `withRules`; `rstep = withRules genRules rstepFacts`
+  reads it (and every other fact) off the current source. `genRules_sound` + `facts_as_modelled`
+  give `code_as_modelled : rstep = rstepCore`; `watch_never_silent` / `recv_error_retried_or_reported`
+  state the clause "…or terminates with an Errored event"; `seeded_rule_*` are kernel-checked
+  witnesses that a rule which swallows a clean end of stream makes the watch go silent.
 -/
 import Cosi.Props.C12
 import Cosi.Model.RWatch
@@ -719,7 +727,7 @@ theorem rstep_inv {start : Nat} {init : List Event} (s : Ring × RClient) (st : 
           exact hph.1.recv hrv rfl rfl rfl rfl
     | retrying => dsimp only; exact h0
     | done cause => dsimp only; exact h0
-  | fail restart =>
+  | fail restart e =>
     simp only [rstepCore]
     -- a replaced server process only makes the bookmarks foreign
     generalize hcd : (if restart then { c with cookieOk := false } else c) = c'
@@ -802,8 +810,18 @@ theorem rstep_inv {start : Nat} {init : List Event} (s : Ring × RClient) (st : 
         exact ⟨hr, hsh, terminate_inv _ (retry_final hph)⟩
       · simp only [hstop, if_false]
         cases a with
-        | dialFail => exact h0
-        | firstRecvFail => exact h0
+        | dialFail =>
+          refine ⟨hr, hsh, ?_⟩
+          show PhaseInv start init r { c with lastErr := .status, phase := .retrying }
+          unfold PhaseInv
+          dsimp only
+          exact hph.congr rfl rfl rfl rfl
+        | firstRecvFail e =>
+          refine ⟨hr, hsh, ?_⟩
+          show PhaseInv start init r { c with lastErr := e, phase := .retrying }
+          unfold PhaseInv
+          dsimp only
+          exact hph.congr rfl rfl rfl rfl
         | connect cur =>
           simp only
           obtain ⟨p, I, b1, b2, b3, b4, b5, b6, b7⟩ := hph.ex
@@ -845,7 +863,7 @@ theorem rstep_static (s : Ring × RClient) (st : RStep) :
     · split <;> exact ⟨rfl, rfl⟩
     · split <;> exact ⟨rfl, rfl⟩
     · exact ⟨rfl, rfl⟩
-  | fail restart =>
+  | fail restart e =>
     simp only [rstepCore, RClient.terminate]
     cases restart <;> simp only [if_true, if_false, Bool.false_eq_true] <;> split <;>
       (try split) <;> (try split) <;> exact ⟨rfl, rfl⟩
@@ -933,11 +951,11 @@ theorem client_stream_is_server_log_core (r0 : Ring) (c0 : RClient) (start : Nat
 /-- the circumstances under which step `st` from state `s` may end the watch with `cause` -/
 def Allowed (s : Ring × RClient) (st : RStep) : RCause → Prop
   | .retryDisabled =>
-    -- a transport failure while retries are disabled
-    (∃ b, st = .fail b) ∧ (∃ w, s.2.phase = .streaming w) ∧ s.2.retry = false
+    -- a Recv error (transport failure or clean end of stream) while retries are disabled
+    (∃ b e, st = .fail b e) ∧ (∃ w, s.2.phase = .streaming w) ∧ s.2.retry = false
   | .noBookmark =>
-    -- a transport failure while the last event handed to the subscriber (if any) carried no bookmark
-    (∃ b, st = .fail b) ∧ (∃ w, s.2.phase = .streaming w) ∧ s.2.retry = true ∧
+    -- a Recv error while the last event handed to the subscriber (if any) carried no bookmark
+    (∃ b e, st = .fail b e) ∧ (∃ w, s.2.phase = .streaming w) ∧ s.2.retry = true ∧
       s.2.lastBm = none ∧ lastBmOf s.2.delivered = none
   | .exhausted =>
     -- the back-off's MaxElapsedTime test (NextBackOff = Stop)
@@ -992,7 +1010,7 @@ theorem errored_only_when_allowed_core {start : Nat} {init : List Event} (s : Ri
         | some d => cases hdone
     | retrying => simp only [hp] at hdone; cases hdone
     | done x => exact absurd hp (hnot x)
-  | fail restart =>
+  | fail restart e =>
     simp only [rstepCore] at hdone
     generalize hcd : (if restart then { c with cookieOk := false } else c) = c' at hdone
     have hc' : c'.delivered = c.delivered ∧ c'.lastBm = c.lastBm ∧ c'.phase = c.phase ∧ c'.retry = c.retry := by
@@ -1014,14 +1032,14 @@ theorem errored_only_when_allowed_core {start : Nat} {init : List Event} (s : Ri
             rw [← e2]; cases hh : c'.lastBm with
             | none => rfl
             | some p => rw [hh] at hnone; simp at hnone
-          exact ⟨⟨restart, rfl⟩, ⟨w, hp⟩, by rw [← e6]; exact hre, hlb, by rw [← hph.lb]; exact hlb⟩
+          exact ⟨⟨restart, e, rfl⟩, ⟨w, hp⟩, by rw [← e6]; exact hre, hlb, by rw [← hph.lb]; exact hlb⟩
         · simp only [hnone, Bool.false_eq_true, if_false] at hdone
           cases hdone
       · have hre' : c'.retry = false := by cases hh : c'.retry <;> simp_all
         simp only [hre', Bool.not_false, if_true, RClient.terminate] at hdone
         injection hdone with hc
         subst hc
-        exact ⟨⟨restart, rfl⟩, ⟨w, hp⟩, by rw [← e6]; exact hre'⟩
+        exact ⟨⟨restart, e, rfl⟩, ⟨w, hp⟩, by rw [← e6]; exact hre'⟩
     | waitFirst w =>
       rw [hp] at e5
       simp only [e5] at hdone
@@ -1047,8 +1065,8 @@ theorem errored_only_when_allowed_core {start : Nat} {init : List Event} (s : Ri
         exact ⟨now, next, a, rfl, hp, hstop⟩
       · simp only [hstop, if_false] at hdone
         cases a with
-        | dialFail => dsimp only at hdone; rw [hp] at hdone; cases hdone
-        | firstRecvFail => dsimp only at hdone; rw [hp] at hdone; cases hdone
+        | dialFail => dsimp only at hdone; cases hdone
+        | firstRecvFail e => dsimp only at hdone; cases hdone
         | connect cur =>
           simp only at hdone
           obtain ⟨p, I, b1, b2, b3, b4, b5, b6, b7⟩ := hph.ex
@@ -1081,7 +1099,7 @@ theorem done_stays (s : Ring × RClient) (st : RStep) (cause : RCause) (h : s.2.
   | srvPush => simp only [rstepCore, RClient.withSrv, h]
   | srvSettle fuel => simp only [rstepCore, RClient.withSrv, h]
   | recv now => simp only [rstepCore, h]
-  | fail restart =>
+  | fail restart e =>
     simp only [rstepCore]
     cases restart <;> simp only [if_true, if_false, Bool.false_eq_true, h]
   | attempt now next a => simp only [rstepCore, h]
@@ -1294,16 +1312,45 @@ which READS those facts. They coincide exactly when the anchored code still has 
 recognised shape; if `tools/extract` regenerates a fact as `false`, this theorem — and
 with it the four property theorems below — no longer builds. -/
 
-theorem code_as_modelled : rstep = rstepCore := by
+theorem facts_as_modelled : rstepFacts = rstepCore := by
   funext s st
   cases st <;>
-    simp [rstep, rstepCore, gLastBmAfter, RClient.gReconnect, RClient.reconnect, RClient.gReqOpts, RClient.reqOpts,
+    simp [rstepFacts, rstepCore, gLastBmAfter, RClient.gReconnect, RClient.reconnect, RClient.gReqOpts, RClient.reqOpts,
       Gen.RWatch.checksDisable, Gen.RWatch.checksNilBookmark, Gen.RWatch.stopsOnBackoffStop,
       Gen.RWatch.clearsBootstrapContents, Gen.RWatch.clearsBootstrapBookmark, Gen.RWatch.clearsTail,
       Gen.RWatch.resumesFromLastBookmark, Gen.RWatch.requestRewrittenBeforeDial, Gen.RWatch.dialErrorContinues,
       Gen.RWatch.abortsOnFailedPrecondition, Gen.RWatch.otherCodesContinue, Gen.RWatch.resetsBackoffOnMessage,
       Gen.RWatch.bookmarkPerEvent, Gen.RWatch.forwardsBeforeNextRecv, Gen.RWatch.backoffDefaultCtor,
       Gen.RWatch.serverInvalidBookmarkIsFailedPrecondition, Gen.RWatch.backoffStopShape]
+
+/-- a rule for the event loop's error branch is sound when EVERY error that ends the watch —
+    a status error or a clean end of stream — is handed to `sendError` -/
+def Sound (r : Rules) : Prop := ∀ e, r.reports e = true
+
+theorem goodRules_sound : Sound goodRules := fun _ => rfl
+
+/-- the CURRENT source reports every error (rests on `Gen.RWatch.eventLoopReportsStatus`,
+    `eventLoopReportsEOF`, `sendErrorSendsErrored`): stops building when the error branch of
+    the event loop swallows a kind of error -/
+theorem genRules_sound : Sound genRules := by
+  intro e
+  cases e <;> rfl
+
+/-- under a sound rule the error branch changes nothing -/
+theorem withRules_sound (r : Rules) (hr : Sound r) (f : Ring × RClient → RStep → Ring × RClient) :
+    withRules r f = f := by
+  funext s st
+  unfold withRules
+  dsimp only
+  cases hp : (f s st).2.phase with
+  | done cause => simp [hr _]
+  | streaming w => rfl
+  | waitFirst w => rfl
+  | retrying => rfl
+
+theorem code_as_modelled : rstep = rstepCore := by
+  unfold rstep rstepW
+  rw [withRules_sound genRules genRules_sound, facts_as_modelled]
 
 theorem rrun_eq : rrun = rrunCore := by
   funext s steps
@@ -1370,6 +1417,90 @@ theorem rrun_inv_gen {start : Nat} {init : List Event} (steps : List RStep) (s :
     (h : CInv start init s) : CInv start init (rrun s steps) := by
   rw [rrun_eq]; exact rrun_inv steps s h
 
+/-! ### the watch never goes silent
+
+The clause "…or terminates with an Errored event (no bookmark seen yet, retries disabled or
+exhausted)": whenever the client-side goroutine has returned, the LAST thing it handed to the
+subscriber is its `Errored` event — for every schedule, whatever ended the stream (a transport
+error or a clean end of stream), at whatever point of the retry loop. -/
+
+/-- **C13 — a finished watch has said so.** In every reachable state: if the client goroutine has
+    returned (`done`), what the subscriber was handed ends with the client's `Errored` event. -/
+theorem terminal_error_delivered {start : Nat} {init : List Event} (steps : List RStep) (s : Ring × RClient)
+    (cause : RCause) (hinv : CInv start init s) (hdone : (rrun s steps).2.phase = .done cause) :
+    ∃ D, (rrun s steps).2.delivered = D ++ [erroredEvent] := by
+  have h := (rrun_inv_gen steps s hinv).ph
+  unfold PhaseInv at h
+  rw [hdone] at h
+  obtain ⟨D, hD, _⟩ := h
+  exact ⟨D, hD⟩
+
+/-- the client goroutine is blocked in `Recv`, inside its retry loop, or has returned -/
+def alive (c : RClient) : Bool :=
+  match c.phase with
+  | .done _ => false
+  | _ => true
+
+/-- **C13 — the watch never goes silent**: after any schedule the client is still working on the
+    stream (blocked in Recv or in its retry loop) or the subscriber's last event is `Errored`. -/
+theorem watch_never_silent {start : Nat} {init : List Event} (steps : List RStep) (s : Ring × RClient)
+    (hinv : CInv start init s) :
+    alive (rrun s steps).2 = true ∨ (rrun s steps).2.delivered.getLast? = some erroredEvent := by
+  cases hp : (rrun s steps).2.phase with
+  | done cause =>
+    obtain ⟨D, hD⟩ := terminal_error_delivered steps s cause hinv hp
+    right
+    rw [hD]
+    simp
+  | streaming w => left; simp [alive, hp]
+  | waitFirst w => left; simp [alive, hp]
+  | retrying => left; simp [alive, hp]
+
+/-- **C13 — a Recv error is retried or reported, whatever its kind.** When `cli.Recv` of an
+    established stream fails — with a status error OR with io.EOF — the client either enters its
+    retry loop (then retries are enabled and it holds a bookmark) or hands `Errored` to the
+    subscriber and returns. There is no third outcome. -/
+theorem recv_error_retried_or_reported (s : Ring × RClient) (b : Bool) (e : RecvErr) (w : Watcher)
+    (hp : s.2.phase = .streaming w) :
+    ((rstep s (.fail b e)).2.phase = .retrying ∧ s.2.retry = true ∧ s.2.lastBm.isSome = true) ∨
+    (∃ cause, (rstep s (.fail b e)).2.phase = .done cause ∧
+      (rstep s (.fail b e)).2.delivered = s.2.delivered ++ [erroredEvent]) := by
+  rw [code_as_modelled]
+  obtain ⟨r, c⟩ := s
+  simp only at hp
+  simp only [rstepCore]
+  generalize hcd : (if b then { c with cookieOk := false } else c) = c'
+  have hc' : c'.delivered = c.delivered ∧ c'.lastBm = c.lastBm ∧ c'.phase = c.phase ∧ c'.retry = c.retry := by
+    rw [← hcd]; cases b <;> simp
+  obtain ⟨e1, e2, e5, e6⟩ := hc'
+  rw [hp] at e5
+  simp only [e5]
+  by_cases hre : c'.retry = true
+  · simp only [hre, Bool.not_true, Bool.false_eq_true, if_false]
+    by_cases hnone : c'.lastBm.isNone = true
+    · simp only [hnone, if_true, RClient.terminate]
+      exact Or.inr ⟨.noBookmark, rfl, by rw [e1]⟩
+    · simp only [hnone, Bool.false_eq_true, if_false]
+      refine Or.inl ⟨by first | rfl | trivial, by rw [← e6]; exact hre, ?_⟩
+      rw [← e2]
+      cases hh : c'.lastBm with
+      | none => rw [hh] at hnone; simp at hnone
+      | some p => rfl
+  · have hre' : c'.retry = false := by cases hh : c'.retry <;> simp_all
+    simp only [hre', Bool.not_false, if_true, RClient.terminate]
+    exact Or.inr ⟨.retryDisabled, rfl, by rw [e1]⟩
+
+/-- what an UNSOUND rule does (general form of the witnesses below): a step that ends the watch
+    with an error the rule does not report leaves the subscriber's stream exactly as it was — the
+    client is `done` and nothing says so -/
+theorem unreported_end_is_silent (r : Rules) (f : Ring × RClient → RStep → Ring × RClient) (s : Ring × RClient)
+    (st : RStep) (cause : RCause) (hnot : isDonePhase s.2.phase = false) (hd : (f s st).2.phase = .done cause)
+    (hr : r.reports (endErr s.2 st cause) = false) :
+    (withRules r f s st).2.phase = .done cause ∧ (withRules r f s st).2.delivered = s.2.delivered := by
+  unfold withRules
+  simp only [hd, hnot, hr, Bool.not_false, Bool.and_self, if_true]
+  constructor <;> first | exact hd | rfl | trivial
+
 /-! ### non-vacuity: concrete schedules -/
 
 def exRes (id : String) : Res :=
@@ -1397,7 +1528,7 @@ example : CInv 1 (kindInit [exRes "a"] "n1" "T" false { bootstrap := true } 1).f
     re-establishment that first fails to dial and then resumes from bookmark 0: the subscriber
     gets contents, Bootstrapped, b@1, c@2 — each exactly once, in order; the watch is streaming -/
 def exSched : List RStep :=
-  [.srvSettle 9, .recv 0, .srvSettle 9, .recv 0, .write (exEv "b"), .fail false, .write (exEv "c"),
+  [.srvSettle 9, .recv 0, .srvSettle 9, .recv 0, .write (exEv "b"), .fail false .status, .write (exEv "c"),
    .attempt 1 1 .dialFail, .attempt 2 1 (.connect none), .srvSettle 9, .recv 3, .srvSettle 9, .recv 3]
 
 example : (rrun (exRing, exClient) exSched).2.delivered.map (fun e => (e.typ, e.res.id, e.bm)) =
@@ -1410,7 +1541,7 @@ example : (rrun (exRing, exClient) exSched).2.delivered.map (fun e => (e.typ, e.
     the retry is refused and the watch ends with ONE Errored after exactly what it had delivered -/
 example :
     let s := rrun (exRing, exClient)
-      [.srvSettle 9, .recv 0, .srvSettle 9, .recv 0, .fail false, .write (exEv "b"), .write (exEv "c"),
+      [.srvSettle 9, .recv 0, .srvSettle 9, .recv 0, .fail false .status, .write (exEv "b"), .write (exEv "c"),
        .write (exEv "d"), .write (exEv "e"), .attempt 1 1 (.connect none)]
     s.2.delivered.map (fun e => (e.typ, e.bm)) = [(.created, none), (.bootstrapped, some 0), (.errored, none)] ∧
     (match s.2.phase with | .done .invalidBookmark => true | _ => false) = true := by
@@ -1418,7 +1549,7 @@ example :
 
 /-- a failure before any bookmarked event (only a bootstrap Created received): Errored, no retry -/
 example :
-    let s := rrun (exRing, exClient) [.srvSettle 9, .recv 0, .fail false]
+    let s := rrun (exRing, exClient) [.srvSettle 9, .recv 0, .fail false .status]
     s.2.delivered.map (fun e => e.typ) = [.created, .errored] ∧
     (match s.2.phase with | .done .noBookmark => true | _ => false) = true := by
   decide
@@ -1426,13 +1557,13 @@ example :
 /-- the back-off gives up WITHOUT a single attempt when the watch has been up for longer than
     MaxElapsedTime (15 min) since it was established / last reset: `now - boStart = 1000 s` -/
 example :
-    let s := rrun (exRing, exClient) [.srvSettle 9, .recv 0, .srvSettle 9, .recv 0, .fail false, .attempt 1000 1 (.connect none)]
+    let s := rrun (exRing, exClient) [.srvSettle 9, .recv 0, .srvSettle 9, .recv 0, .fail false .status, .attempt 1000 1 (.connect none)]
     (match s.2.phase with | .done .exhausted => true | _ => false) = true := by
   decide
 
 /-- a replaced server process refuses the old bookmark although its position is in range -/
 example :
-    let s := rrun (exRing, exClient) [.srvSettle 9, .recv 0, .srvSettle 9, .recv 0, .fail true, .attempt 1 1 (.connect none)]
+    let s := rrun (exRing, exClient) [.srvSettle 9, .recv 0, .srvSettle 9, .recv 0, .fail true .status, .attempt 1 1 (.connect none)]
     (match s.2.phase with | .done .invalidBookmark => true | _ => false) = true := by
   decide
 
@@ -1442,9 +1573,68 @@ example :
     let c : RClient := RClient.establish "n1" "T" .kind none 1 true 0 1
       (kindInit [exRes "a"] "n1" "T" false { bootstrap := true, bootstrapBookmark := true } 1)
     let s := rrun (exRing, c)
-      [.srvSettle 9, .recv 0, .srvSettle 9, .recv 0, .fail false, .write (exEv "b"), .attempt 1 1 (.connect none),
+      [.srvSettle 9, .recv 0, .srvSettle 9, .recv 0, .fail false .status, .write (exEv "b"), .attempt 1 1 (.connect none),
        .srvSettle 9, .recv 2]
     s.2.delivered.map (fun e => (e.typ, e.bm)) = [(.created, none), (.bootstrapped, some 0), (.created, some 1)] := by
+  decide
+
+/-! ### kernel-checked negative witnesses: a rule that swallows a clean end of stream
+
+`seededRules` is the rule of an event loop whose error branch reads
+`if !errors.Is(err, io.EOF) { sendError(err) }; return` (io.EOF taken for a regular end, as in
+List). The property's clause fails in exactly the three non-retryable situations it names; with
+a bookmark and retries enabled the watch still resumes (the fourth example), which is why such a
+change survives every test that only restarts servers. -/
+
+def seededRules : Rules := { reports := fun | .eof => false | .status => true }
+
+def rrunW (r : Rules) (s : Ring × RClient) (steps : List RStep) : Ring × RClient := steps.foldl (withRules r rstepCore) s
+
+theorem seededRules_unsound : ¬ Sound seededRules := fun h => by have := h .eof; cases this
+
+/-- no bookmark seen yet (only a bootstrap Created received), the server ends the stream cleanly:
+    the client goroutine has returned and the subscriber was told NOTHING -/
+theorem seeded_rule_silent_without_bookmark :
+    let s := rrunW seededRules (exRing, exClient) [.srvSettle 9, .recv 0, .fail false .eof]
+    s.2.delivered.map (fun e => e.typ) = [.created] ∧ alive s.2 = false ∧
+    s.2.delivered.getLast? ≠ some erroredEvent := by
+  decide
+
+/-- retries disabled, bookmark seen: same silence -/
+theorem seeded_rule_silent_with_retries_disabled :
+    let c : RClient := RClient.establish "n1" "T" .kind none 1 false 0 1
+      (kindInit [exRes "a"] "n1" "T" false { bootstrap := true } 1)
+    let s := rrunW seededRules (exRing, c) [.srvSettle 9, .recv 0, .srvSettle 9, .recv 0, .fail false .eof]
+    s.2.delivered.map (fun e => e.typ) = [.created, .bootstrapped] ∧ alive s.2 = false := by
+  decide
+
+/-- back-off exhausted while the error being retried was a clean end of stream (`%w` keeps it
+    visible to errors.Is): silence again -/
+theorem seeded_rule_silent_when_exhausted :
+    let s := rrunW seededRules (exRing, exClient)
+      [.srvSettle 9, .recv 0, .srvSettle 9, .recv 0, .fail false .status, .attempt 1 1 (.firstRecvFail .eof),
+       .attempt 1000 1 .dialFail]
+    s.2.delivered.map (fun e => e.typ) = [.created, .bootstrapped] ∧ alive s.2 = false := by
+  decide
+
+/-- … whereas a retryable clean end of stream (bookmark seen, retries enabled) resumes under the
+    seeded rule exactly as under the sound one, and so does every status error -/
+theorem seeded_rule_still_resumes :
+    let sched : List RStep := [.srvSettle 9, .recv 0, .srvSettle 9, .recv 0, .write (exEv "b"), .fail false .eof,
+      .attempt 1 1 (.connect none), .srvSettle 9, .recv 2]
+    (rrunW seededRules (exRing, exClient) sched).2.delivered = (rrunCore (exRing, exClient) sched).2.delivered ∧
+    (rrunW seededRules (exRing, exClient) [.srvSettle 9, .recv 0, .fail false .status]).2.delivered.map (fun e => e.typ) =
+      [.created, .errored] := by
+  decide
+
+/-- the machine of the CURRENT source on the same schedules: one `Errored`, last (reads the
+    regenerated facts: fails to check when the source swallows a clean end of stream) -/
+theorem current_source_reports_clean_end :
+    (rrun (exRing, exClient) [.srvSettle 9, .recv 0, .fail false .eof]).2.delivered.map (fun e => e.typ) =
+      [.created, .errored] ∧
+    (rrun (exRing, exClient) [.srvSettle 9, .recv 0, .srvSettle 9, .recv 0, .fail false .status,
+      .attempt 1 1 (.firstRecvFail .eof), .attempt 1000 1 .dialFail]).2.delivered.map (fun e => e.typ) =
+      [.created, .bootstrapped, .errored] := by
   decide
 
 end Cosi.C13
